@@ -70,7 +70,7 @@ def _cost(rng, alpha):
     return rng.choice(a)
 
 
-def gen_case(rng, arm, tier):
+def gen_case(rng, arm, tier, k=0):
     if arm == "real":
         return gen_real(rng)
     size = rng.randint(1, 12) if arm == "synth" else rng.randint(8, 64)
